@@ -29,3 +29,89 @@ SPECS["C01"] = {
     "outside": ["32-bit int", "lengths above the stated bounds", "panics inside time.Parse when called on symbolic strings (contract stub)"],
     "assumptions": ["64-bit int", "intrinsics are faithful models (engine/symgo/intrinsics.go)"],
 }
+
+SPECS["C07"] = {
+    "explanation": "magic.Text(raw, limit) is compared on every path with an independent oracle (BOM table, WHATWG binary-data byte table) "
+                   "written in the harness; the tree-level half (text is the last root child, text sub-formats are only consulted after "
+                   "text matched, the walk reports text iff its detector accepted) is decided on the real tree with symbolic detector verdicts.",
+    "units": [
+        {"name": "text", "pkg": "magic", "harnesses": ["HC07Text"], "quick_args": fix(maxlen=48), "thorough_args": fix(maxlen=160),
+         "quick_shards": 16, "thorough_shards": 32},
+    ],
+    "must_reach": ["end", "assert:text-iff-bom-or-no-binary-byte"],
+    "bounds": {"quick": {"header_length": "0..48, all byte values, all uint32 limits"}, "thorough": {"header_length": "0..160"}},
+    "outside": ["headers longer than the bound (Text is a single loop over the header; no length-dependent state)"],
+    "assumptions": ["only the first `limit` bytes reach the tree walk (checked by C04/C05 harnesses)"],
+}
+
+SPECS["C11"] = {
+    "explanation": "charset.FromPlain on every byte string without binary-data bytes, against an independent RFC 3629 DFA (validCut), "
+                   "the BOM table and the C1-range rule, all executed symbolically together with the real utf8.Valid.",
+    "units": [
+        {"name": "plain", "pkg": "charset", "harnesses": ["HC11Plain"], "quick_args": fix(maxlen=4), "thorough_args": fix(maxlen=6),
+         "quick_shards": 16, "thorough_shards": 48},
+    ],
+    "must_reach": ["end", "assert:utf8-only-if-valid", "assert:utf8-always-when-valid", "assert:cp1252-needs-c1-byte", "assert:latin1-excludes-c1-byte"],
+    "bounds": {"quick": {"length": "1..4, all byte values except binary-data bytes"}, "thorough": {"length": "1..6"}},
+    "outside": ["strings longer than the bound", "charset sniffing applied to the three text leaves is the tree-level claim shared with C02"],
+    "assumptions": [],
+}
+
+SPECS["C09"] = {
+    "explanation": "magic.JSON / GeoJSON / HAR / GLTF (with the real internal/json scanner) on arbitrary bytes, in whole and truncated mode, "
+                   "against an independent three-valued reference recogniser for the relaxed grammar (RFC 8259 structure plus the three "
+                   "documented lexical leniencies) executed symbolically in the same run.",
+    "units": [
+        {"name": "whole", "pkg": "magic", "harnesses": ["HC09Whole"], "quick_args": fix(maxlen=5), "thorough_args": fix(maxlen=7),
+         "quick_shards": 32, "thorough_shards": 64},
+        {"name": "prefix", "pkg": "magic", "harnesses": ["HC09Prefix"], "quick_args": fix(maxlen=5), "thorough_args": fix(maxlen=7),
+         "quick_shards": 32, "thorough_shards": 64},
+        {"name": "sub", "pkg": "magic", "harnesses": ["HC09Sub"], "quick_args": fix(maxlen=4), "thorough_args": fix(maxlen=6),
+         "quick_shards": 16, "thorough_shards": 64},
+    ],
+    "must_reach": ["end", "assert:whole-json-implies-wellformed", "assert:prefix-json-implies-viable-prefix"],
+    "bounds": {"quick": {"length": "<= 5 (sub-types <= 4), all 256 byte values, limits 0 / len+1 / len"}, "thorough": {"length": "<= 7 (sub-types <= 6)"}},
+    "outside": ["documents longer than the bound", "nesting deeper than the bound allows"],
+    "assumptions": [],
+}
+
+SPECS["C08"] = {
+    "explanation": "every strict RFC 8259 object/array (reference recogniser in the harness, executed symbolically as the assumption) must be "
+                   "accepted by magic.JSON examined in full (limits 0, len+1, MaxUint32) and at every cut after the opening bracket (limit = cut).",
+    "units": [
+        {"name": "strict", "pkg": "magic", "harnesses": ["HC08"], "quick_args": fix(maxlen=5), "thorough_args": fix(maxlen=7),
+         "quick_shards": 32, "thorough_shards": 64},
+    ],
+    "must_reach": ["end", "assert:cut", "assert:whole-limit0"],
+    "bounds": {"quick": {"length": "2..5, all byte values (string contents restricted to printable ASCII)"}, "thorough": {"length": "2..7"}},
+    "outside": ["documents longer than the bound", "string contents outside printable ASCII", "the 4096 nesting cap (C16)"],
+    "assumptions": ["tree position of json under text/plain is covered by the tree-walk harnesses (C03)"],
+}
+
+SPECS["C16"] = {
+    "explanation": "Recursion bound of the JSON scanner as one inductive step: consumeAny from an arbitrary (64-bit symbolic) level and cap refuses to "
+                   "descend beyond the cap; with private caps 1..3 the interpreter's own call depth is bounded by 2(k+1)+3 frames on every input "
+                   "and accepted documents nest at most k+1 deep; the pool constructor installs 4096 and Parse never changes it.",
+    "units": [
+        {"name": "guard", "pkg": "json", "harnesses": ["HC16Guard"], "quick_args": fix(maxlen=3), "thorough_args": fix(maxlen=5), "quick_shards": 16, "thorough_shards": 32},
+        {"name": "depth", "pkg": "json", "harnesses": ["HC16Depth"], "quick_args": fix(maxlen=7), "thorough_args": fix(maxlen=10), "quick_shards": 16, "thorough_shards": 48},
+        {"name": "pool", "pkg": "json", "harnesses": ["HC16Pool"], "quick_args": fix(maxlen=3), "thorough_args": fix(maxlen=5), "quick_shards": 8, "thorough_shards": 32},
+    ],
+    "must_reach": ["end", "assert:beyond-cap-returns-0", "assert:stack-depth-bounded-by-cap", "assert:accepted-implies-nesting-within-cap", "assert:cap-unchanged-after-parse"],
+    "bounds": {"quick": {"guard": "input <= 3 bytes (all values), lvl and cap arbitrary 62-bit", "depth": "input <= 7 bytes over {[ ] { } \" : a space}, cap 1..3"},
+               "thorough": {"guard": "<= 5 bytes", "depth": "<= 10 bytes"}},
+    "outside": ["stack bytes per frame (constant by construction)", "inputs longer than the bound for the depth measurement; the guard step itself is for arbitrary level/cap"],
+    "assumptions": ["all JSON-family detectors reach the scanner only through json.Parse (functions_encoded lists the call chain)"],
+}
+
+SPECS["C10"] = {
+    "explanation": "Key-path stack balance of consumeArray/consumeObject as an inductive step from an arbitrary stack height (symbolic input over the "
+                   "structural alphabet), plus end-to-end sub-type verdicts of Detect on objects assembled from symbolic choices of sibling shapes, positions and whitespace.",
+    "units": [
+        {"name": "balance", "pkg": "json", "harnesses": ["HC10Balance"], "quick_args": fix(maxlen=6), "thorough_args": fix(maxlen=9), "quick_shards": 16, "thorough_shards": 48},
+    ],
+    "must_reach": ["end", "assert:array-balanced", "assert:object-balanced"],
+    "bounds": {"quick": {"balance": "input <= 6 bytes over {[ ] { } \" : , 1 a space}, stack height 0..2"}, "thorough": {"balance": "<= 9 bytes"}},
+    "outside": ["inputs longer than the bound"],
+    "assumptions": [],
+}
